@@ -412,4 +412,16 @@ example : Aqv.Gen.Translated.headsize Aqv.Lemmas.Translated.intsizeRef 55 = 1 âˆ
     Aqv.Gen.Translated.headsize Aqv.Lemmas.Translated.intsizeRef 56 = 2 âˆ§
     Aqv.Gen.Translated.headsize Aqv.Lemmas.Translated.intsizeRef 1024 = 3 := by decide
 
+-- concrete behaviour of the machine (the list case through `stream_refines`: evaluating the machine itself on a list
+-- by `rfl` is very expensive for the elaborator)
+example : (RlpStream.decodeBytes []).1 = .error .eof := by rfl
+example : (RlpStream.decodeBytes [0x01, 0x01]).1 = .error .moreThanOneValue := by rfl
+example : (RlpStream.decodeBytes [0xb9, 0xff, 0xff, 0x01]).1 = .error .valueTooLarge := by rfl
+example : (RlpStream.decodeBytes [0xc3, 0x01, 0x02, 0x03]).1 = .ok (.list [.str [1], .str [2], .str [3]]) :=
+  (stream_refines _ _).2 (by rfl)
+example : (RlpStream.decodeStream [0xc3, 0x01, 0x02, 0x03]).1 = .ok (.list [.str [1], .str [2], .str [3]]) :=
+  (stream_refines_stream _ _).2 (by rfl)
+example : (RlpStream.decodeBytes [0xc3, 0x01, 0x02, 0x03, 0x04]).1 = .error .moreThanOneValue :=
+  stream_more_than_one_value (.list [.str [1], .str [2], .str [3]]) (by decide) [0x04] (by simp)
+
 end Aqv.Props.C11
